@@ -208,10 +208,10 @@ theorem unnamed_never_union {key : LookupKey} {bs : List Node} {d : Nat}
     `ser` appends bytes that the specification decoder reads back (followed by any trailing input,
     with any sufficiently large fuel) as a value that the presentation denotes; the final state
     again has an infallible writer and a clean pool. -/
-theorem C02_sound_strong (ac : Bool) (ext : Ext) (allowSlow : Bool) (S : Schema) (node : Node)
+theorem C02_sound_strong (ext : Ext) (allowSlow : Bool) (S : Schema) (node : Node)
     (sv : SV) (s : SerState)
     (hok : (ser ext allowSlow S node sv s).1 = .ok ())
-    (hs : Good s) (hS : SchemaOK ac S) (hnode : NodeOK ac S node) (hsv : svOK ac sv = true)
+    (hs : Good s) (hS : SchemaOK S) (hnode : NodeOK S node) (hsv : svOK sv = true)
     (hext : ExtOK ext) :
     ∃ s' v bytes, ser ext allowSlow S node sv s = (.ok (), s') ∧ s'.out = s.out ++ bytes ∧ Good s' ∧
       (∃ N, ∀ fuel, N ≤ fuel → ∀ rest, Spec.decode S fuel node (bytes ++ rest) = some (v, rest)) ∧
@@ -220,62 +220,45 @@ theorem C02_sound_strong (ac : Bool) (ext : Ext) (allowSlow : Bool) (S : Schema)
 
 /-- C02, composite statement.  Beyond the hypotheses asked for (`PoolClean`, `keysInBounds`,
     `schemaNamesDistinct`) the theorem needs, and the counterexamples below show that it needs:
-    * `nodeOKb ac S node`: the top-level node satisfies what is checked of the nodes of `S`
+    * `nodeOKb S node`: the top-level node satisfies what is checked of the nodes of `S`
       (children in bounds, …) — `node` need not be a member of `S`;
     * `schemaNoNestedUnion S`: no union has a union as an immediate branch (Avro rule);
-    * `svOK ac sv`: every integer lies in the range of its Rust type and every length is below
-      `2 ^ 63`; with `ac = false`, no `char` occurs in `sv`;
-    * `schemaCharOK ac S`: with `ac = true` (`char`s allowed), no enum symbol is one character long;
+    * `svOK sv`: every integer lies in the range of its Rust type and every length is below
+      `2 ^ 63`;
     * `schemaSmall S`: unions and enums have fewer than `2 ^ 63` branches/symbols;
     * `ExtOK ext`: `rust_decimal` mantissas fit `i128`, scales fit a `long`. -/
-theorem C02_sound_partial (ac : Bool) (ext : Ext) (allowSlow : Bool) (S : Schema) (node : Node)
+theorem C02_sound_partial (ext : Ext) (allowSlow : Bool) (S : Schema) (node : Node)
     (sv : SV) (o : Bytes) (p : Pool)
     (hok : (ser ext allowSlow S node sv { out := o, budget := none, pool := p }).1 = .ok ())
     (hp : PoolClean p) (hk : S.keysInBounds = true) (hd : schemaNamesDistinct S = true)
     (hsmall : schemaSmall S = true) (hnn : schemaNoNestedUnion S = true)
-    (hchar : schemaCharOK ac S = true) (hnode : nodeOKb ac S node = true)
-    (hsv : svOK ac sv = true) (hext : ExtOK ext) :
+    (hnode : nodeOKb S node = true)
+    (hsv : svOK sv = true) (hext : ExtOK ext) :
     ∃ v bytes,
       (ser ext allowSlow S node sv { out := o, budget := none, pool := p }).2.out = o ++ bytes ∧
       (∃ N, ∀ fuel, N ≤ fuel → Spec.decode S fuel node bytes = some (v, [])) ∧
       Spec.denotes (denExtOf ext) S node sv v = true ∧
       PoolClean (ser ext allowSlow S node sv { out := o, budget := none, pool := p }).2.pool := by
   obtain ⟨s', v, bytes, hrun, hout, hg, ⟨N, hN⟩, hden⟩ :=
-    C02_sound_strong ac ext allowSlow S node sv { out := o, budget := none, pool := p } hok
-      ⟨rfl, hp⟩ (SchemaOK.of_checks hk hd hsmall hnn hchar) (NodeOK.of_check hnode) hsv hext
+    C02_sound_strong ext allowSlow S node sv { out := o, budget := none, pool := p } hok
+      ⟨rfl, hp⟩ (SchemaOK.of_checks hk hd hsmall hnn) (NodeOK.of_check hnode) hsv hext
   refine ⟨v, bytes, by rw [hrun]; exact hout, ⟨N, fun fuel hf => ?_⟩, hden, by rw [hrun]; exact hg.2⟩
   have := hN fuel hf []
   rwa [List.append_nil] at this
 
-/-- `char`-free presentations: no condition on enum symbols. -/
-theorem C02_sound_charFree (ext : Ext) (allowSlow : Bool) (S : Schema) (node : Node)
-    (sv : SV) (o : Bytes) (p : Pool)
-    (hok : (ser ext allowSlow S node sv { out := o, budget := none, pool := p }).1 = .ok ())
-    (hp : PoolClean p) (hk : S.keysInBounds = true) (hd : schemaNamesDistinct S = true)
-    (hsmall : schemaSmall S = true) (hnn : schemaNoNestedUnion S = true)
-    (hnode : nodeOKb false S node = true) (hsv : svOK false sv = true) (hext : ExtOK ext) :
-    ∃ v bytes,
-      (ser ext allowSlow S node sv { out := o, budget := none, pool := p }).2.out = o ++ bytes ∧
-      (∃ N, ∀ fuel, N ≤ fuel → Spec.decode S fuel node bytes = some (v, [])) ∧
-      Spec.denotes (denExtOf ext) S node sv v = true ∧
-      PoolClean (ser ext allowSlow S node sv { out := o, budget := none, pool := p }).2.pool :=
-  C02_sound_partial false ext allowSlow S node sv o p hok hp hk hd hsmall hnn
-    (by simp [schemaCharOK, nodeCharOK, Array.all_eq_true]; intro i hi; cases S[i] <;> rfl)
-    hnode hsv hext
-
 /-- "A value `S` cannot represent yields `Err`": if the presentation denotes no value at the node,
     serialization does not return `Ok` (contrapositive of `C02_sound_partial`). -/
-theorem C02_unrepresentable_err (ac : Bool) (ext : Ext) (allowSlow : Bool) (S : Schema) (node : Node)
+theorem C02_unrepresentable_err (ext : Ext) (allowSlow : Bool) (S : Schema) (node : Node)
     (sv : SV) (o : Bytes) (p : Pool)
     (hp : PoolClean p) (hk : S.keysInBounds = true) (hd : schemaNamesDistinct S = true)
     (hsmall : schemaSmall S = true) (hnn : schemaNoNestedUnion S = true)
-    (hchar : schemaCharOK ac S = true) (hnode : nodeOKb ac S node = true)
-    (hsv : svOK ac sv = true) (hext : ExtOK ext)
+    (hnode : nodeOKb S node = true)
+    (hsv : svOK sv = true) (hext : ExtOK ext)
     (hnone : ∀ v, Spec.denotes (denExtOf ext) S node sv v = false) :
     (ser ext allowSlow S node sv { out := o, budget := none, pool := p }).1 ≠ .ok () := by
   intro hok
   obtain ⟨v, _, _, _, hv, _⟩ :=
-    C02_sound_partial ac ext allowSlow S node sv o p hok hp hk hd hsmall hnn hchar hnode hsv hext
+    C02_sound_partial ext allowSlow S node sv o p hok hp hk hd hsmall hnn hnode hsv hext
   rw [hnone v] at hv
   exact absurd hv (by simp)
 
@@ -287,21 +270,39 @@ def ext0 : Ext :=
 
 def nmE : Name := { fq := "E", short := "E", ns := none }
 
-/-- Counterexample 1 (`char` on an enum): `serialize_char('A')` on `enum E {A}` succeeds (it goes
-    through `serialize_str`), but `Spec.denotes` does not read a `char` as an enum symbol. -/
-theorem C02_counterexample_char_enum :
-    (ser ext0 false #[] (.enum nmE ["A"]) (.char 'A') { out := [], budget := none, pool := {} }).1
-      = .ok () ∧
-    PoolClean {} ∧ Schema.keysInBounds #[] = true ∧ schemaNamesDistinct #[] = true ∧
-    ∀ v, Spec.denotes (denExtOf ext0) #[] (.enum nmE ["A"]) (.char 'A') v = false := by
-  refine ⟨?_, ⟨by simp, by simp⟩, by simp [Schema.keysInBounds], by simp [schemaNamesDistinct], ?_⟩
+/-- A `char` on an enum (formerly a counterexample, when `Spec.denotes` refused to read a `char` as
+    an enum symbol): `serialize_char('A')` on `enum E {A}` succeeds (it goes through
+    `serialize_str`) and writes the index of `"A"`; the presentation denotes that symbol. -/
+theorem C02_char_enum :
+    ser ext0 false #[] (.enum nmE ["A"]) (.char 'A') { out := [], budget := none, pool := {} }
+      = (.ok (), { out := Spec.encodeLong 0, budget := none, pool := {} }) ∧
+    Spec.denotes (denExtOf ext0) #[] (.enum nmE ["A"]) (.char 'A') (.enum 0) = true ∧
+    svOK (.char 'A') = true ∧ nodeOKb #[] (.enum nmE ["A"]) = true := by
+  refine ⟨?_, ?_, rfl, by decide⟩
   · have : lookupLast ["A"] "A" = some 0 := by decide
     simp [ser, serStr, viaUnion, serStrAt, this, writeVarI64, writeAll]
-  · intro v
-    rw [denotes_char]
-    cases v <;> rfl
+    exact encodeVarI64_eq_spec _ (by decide)
+  · rw [denotes_char]
+    decide
 
-/-- Counterexample 2 (top-level node with a dangling child): `None` on `union [#0]` over the empty
+/-- … and the composite theorem covers it: no condition on enum symbols or on `char`s. -/
+example (ext : Ext) (hext : ExtOK ext) (o : Bytes) :
+    ∃ v bytes,
+      (ser ext false #[] (.enum nmE ["A"]) (.char 'A') { out := o, budget := none, pool := {} }).2.out
+        = o ++ bytes ∧
+      (∃ N, ∀ fuel, N ≤ fuel → Spec.decode #[] fuel (.enum nmE ["A"]) bytes = some (v, [])) ∧
+      Spec.denotes (denExtOf ext) #[] (.enum nmE ["A"]) (.char 'A') v = true := by
+  have hok : (ser ext false #[] (.enum nmE ["A"]) (.char 'A')
+      { out := o, budget := none, pool := {} }).1 = .ok () := by
+    have : lookupLast ["A"] "A" = some 0 := by decide
+    simp [ser, serStr, viaUnion, serStrAt, this, writeVarI64, writeAll]
+  obtain ⟨v, bytes, h1, h2, h3, _⟩ :=
+    C02_sound_partial ext false #[] (.enum nmE ["A"]) (.char 'A') o {} hok ⟨by simp, by simp⟩
+      (by simp [Schema.keysInBounds]) (by simp [schemaNamesDistinct]) (by simp [schemaSmall])
+      (by simp [schemaNoNestedUnion]) (by decide) rfl hext
+  exact ⟨v, bytes, h1, h2, h3⟩
+
+/-- Counterexample 1 (top-level node with a dangling child): `None` on `union [#0]` over the empty
     schema succeeds (the missing branch is treated as `null` by the lookup table). -/
 theorem C02_counterexample_dangling_node :
     (ser ext0 false #[] (.union [0]) .none { out := [], budget := none, pool := {} }).1 = .ok () ∧
@@ -316,7 +317,7 @@ theorem C02_counterexample_dangling_node :
     simp [denotesAtLeaf, unionBranch]
     cases idx <;> simp
 
-/-- Counterexample 3 (an integer outside the range of its Rust type is not a presentation). -/
+/-- Counterexample 2 (an integer outside the range of its Rust type is not a presentation). -/
 theorem C02_counterexample_int_range :
     (ser ext0 false #[] .int (.int .i8 1000) { out := [], budget := none, pool := {} }).1 = .ok () ∧
     ∀ v, Spec.denotes (denExtOf ext0) #[] .int (.int .i8 1000) v = false := by
@@ -328,7 +329,7 @@ theorem C02_counterexample_int_range :
 
 def S4 : Schema := #[.union [1], .map 2, .null]
 
-/-- Counterexample 4 (a union nested directly in a union, selected by the name `"Union"`):
+/-- Counterexample 3 (a union nested directly in a union, selected by the name `"Union"`):
     the serializer writes both discriminants, `Spec.denotes` refuses nested unions for
     struct presentations. -/
 theorem C02_counterexample_nested_union :
@@ -355,7 +356,8 @@ theorem C02_counterexample_nested_union :
     | succ i => simp [structDispatch, unionBranch]
 
 /-- The composite statement with only the hypotheses `PoolClean`, `keysInBounds` and
-    `schemaNamesDistinct` is false (by counterexample 1). -/
+    `schemaNamesDistinct` is false (by counterexample 1: over the empty schema the three hypotheses
+    hold trivially, and they say nothing of the start node). -/
 theorem C02_sound_literal_false :
     ¬ (∀ (ext : Ext) (allowSlow : Bool) (S : Schema) (node : Node) (sv : SV) (o : Bytes) (p : Pool),
       (ser ext allowSlow S node sv { out := o, budget := none, pool := p }).1 = .ok () →
@@ -365,8 +367,9 @@ theorem C02_sound_literal_false :
         (∃ N, ∀ fuel, N ≤ fuel → Spec.decode S fuel node bytes = some (v, [])) ∧
         Spec.denotes (denExtOf ext) S node sv v = true) := by
   intro h
-  obtain ⟨h1, h2, h3, h4, h5⟩ := C02_counterexample_char_enum
-  obtain ⟨v, _, _, _, hv⟩ := h ext0 false #[] (.enum nmE ["A"]) (.char 'A') [] {} h1 h2 h3 h4
+  obtain ⟨h1, h5⟩ := C02_counterexample_dangling_node
+  obtain ⟨v, _, _, _, hv⟩ := h ext0 false #[] (.union [0]) .none [] {} h1 ⟨by simp, by simp⟩
+    (by simp [Schema.keysInBounds]) (by simp [schemaNamesDistinct])
   rw [h5 v] at hv
   exact absurd hv (by simp)
 
